@@ -75,6 +75,57 @@ let rec cmp_tree (site : string) (path : string) (m : node) (i : node) : unit =
 
 let q_of_nat_int n = q_of_ints n 1
 
+(* ---------- rPOMCP: detailed dump ---------- *)
+let rec parse_rnode (r : cursor) : rnode =
+  let n = next_nat r in let v = next_q r in let av = next_q r in let best = next_nat r in
+  let maxs = next_nat r in let km = next_q r in
+  let tb = next_list r (fun r -> let s = next_nat r in let c = next_nat r in (s, (c, q_zero))) in
+  let acts = next_list r (fun r ->
+      let an = next_nat r in let avv = next_q r in
+      let ks = next_list r (fun r -> let k = next_nat r in let c = parse_rnode r in (k, c)) in
+      RAct (an, avv, [], ks)) in
+  RNode (n, v, av, best, O, tb, maxs, km, acts)
+
+let rec node_of_rnode (n : rnode) : node =
+  Node (rN n, [], List.map (fun a -> Act (raN a, raV a, [], List.map (fun (k, c) -> (k, node_of_rnode c)) (rkids a))) (racts n))
+
+let sorted_counts (t : (nat * (nat * q)) list) : (int * int) list =
+  List.sort compare (List.map (fun (s, (c, _)) -> (ioN s, ioN c)) t)
+let str_pairs l = String.concat " " (List.map (fun (a, b) -> Printf.sprintf "%d:%d" a b) l)
+
+let rec cmp_rtree (entropy : bool) (site : string) (path : string) (m : rnode) (i : rnode) : unit =
+  if ioN (rN m) <> ioN (rN i) then disagree "tree_N" site (Printf.sprintf "node %s: N model %d impl %d" path (ioN (rN m)) (ioN (rN i)));
+  if sorted_counts (rtrack m) <> sorted_counts (rtrack i) then disagree "tree_particles" site (Printf.sprintf "node %s: tracking belief model [%s] impl [%s]" path (str_pairs (sorted_counts (rtrack m))) (str_pairs (sorted_counts (rtrack i))));
+  if (not entropy) && ioN (rmaxS m) <> ioN (rmaxS i) then disagree "tree_maxS" site (Printf.sprintf "node %s: maxS_ model %d impl %d" path (ioN (rmaxS m)) (ioN (rmaxS i)));
+  if not (q_close (rkm m) (rkm i)) then disagree "tree_knowledge" site (Printf.sprintf "node %s: knowledge measure model %s impl %s" path (string_of_q (rkm m)) (string_of_q (rkm i)));
+  if not (q_close (rV m) (rV i)) then disagree "tree_V" site (Printf.sprintf "node %s: V model %s impl %s" path (string_of_q (rV m)) (string_of_q (rV i)));
+  if not (q_close (rAV m) (rAV i)) then disagree "tree_V" site (Printf.sprintf "node %s: actionsV model %s impl %s" path (string_of_q (rAV m)) (string_of_q (rAV i)));
+  if List.length (racts m) <> List.length (racts i) then disagree "tree_shape" site (Printf.sprintf "node %s: #actions model %d impl %d" path (List.length (racts m)) (List.length (racts i)));
+  List.iteri (fun ai (am, ai_) ->
+      let p = Printf.sprintf "%s/a%d" path ai in
+      if ioN (raN am) <> ioN (raN ai_) then disagree "tree_N" site (Printf.sprintf "action %s: N model %d impl %d" p (ioN (raN am)) (ioN (raN ai_)));
+      if not (q_close (raV am) (raV ai_)) then disagree "tree_V" site (Printf.sprintf "action %s: V model %s impl %s" p (string_of_q (raV am)) (string_of_q (raV ai_)));
+      let srt ks = List.sort (fun (a, _) (b, _) -> compare (ioN a) (ioN b)) ks in
+      let km = srt (rkids am) and ki = srt (rkids ai_) in
+      if List.map (fun (k, _) -> ioN k) km <> List.map (fun (k, _) -> ioN k) ki then disagree "tree_shape" site (Printf.sprintf "action %s: child keys differ" p);
+      List.iter2 (fun (k, cm) (_, ci) -> cmp_rtree entropy site (Printf.sprintf "%s/k%d" p (ioN k)) cm ci) km ki)
+    (List.combine (racts m) (racts i))
+
+(* the external function of the entropy variant, computed exactly as the C++ does (doubles, libm log) *)
+let plogp (n : nat) (d : nat) : q =
+  let p = float_of_int (ioN n) /. float_of_int (ioN d) in q_of_float (p *. log p)
+
+(* rPOMCP visit counts on the dump: every action's N is the sum of its children's N; a node's N is at
+   least the sum of its actions' N (the difference are its visits as a leaf); every non-root node
+   holds exactly N particles *)
+let rec rcounts_ok (is_root : bool) (n : rnode) : string option =
+  let sa = List.fold_left (fun acc a -> acc + ioN (raN a)) 0 (racts n) in
+  if ioN (rN n) < sa then Some "a node's N is smaller than the sum of its actions' N"
+  else if (not is_root) && List.fold_left (fun acc (_, (c, _)) -> acc + ioN c) 0 (rtrack n) <> ioN (rN n) then Some "a non-root node does not hold exactly N particles"
+  else List.fold_left (fun acc a -> match acc with Some _ -> acc | None ->
+      if List.fold_left (fun s (_, c) -> s + ioN (rN c)) 0 (rkids a) <> ioN (raN a) then Some "an action's N differs from the sum of its observation children's N"
+      else List.fold_left (fun acc (_, c) -> match acc with Some _ -> acc | None -> rcounts_ok false c) None (rkids a)) None (racts n)
+
 (* value range on the implementation's tree: |V| <= maxr * geom disc (h - d) (+ tolerance) *)
 let rec range_ok (disc : q) (maxr : q) (h : int) (d : int) (n : node) : (string * q * q) option =
   let bound = q_mul maxr (geom disc (nat_of_int (max 0 (h - d)))) in
@@ -115,13 +166,15 @@ let judge _id (c : cursor) (r : cursor) : bool * string =
   let ga (s : nat) : nat = nat_of_int (ga_i (ioN s)) in
   let _bsize = if is_mcts then 0 else next_int c in
   let iters = next_int c in let _expl = next_q c in
-  let _k = if is_r then next_int c else 0 in
+  let kk = if is_r then next_int c else 0 in
   let nops = next_int c in
   let term (s : nat) : bool = let i = ioN s in i < ns && termv.(i) in
   let a_n = nat_of_int na in let iters_n = nat_of_int iters in
   let site = if is_mcts then "MCTS::simulate" else if is_r then "rPOMCP::simulate" else "POMCP::simulate" in
   let tree = ref node0 in
   let prev_itree = ref node0 in
+  let rtree = ref rnode0 in
+  let prev_irtree = ref rnode0 in
   let pool : ev list ref = ref [] in
   let deferred : (string * string * string) option ref = ref None in
   let defer cl st d = match !deferred with None -> deferred := Some (cl, st, d); last_deferred := Some (cl, st, d) | Some _ -> () in
@@ -143,8 +196,10 @@ let judge _id (c : cursor) (r : cursor) : bool * string =
     expect r "OP";
     let ret = next_int r in let _termcalls = next_int r in
     let evs = parse_events r in
+    let isb = if is_r then (expect r "SB"; next_list r (fun r -> let s = next_nat r in let cn = next_nat r in (s, cn))) else [] in
     expect r "TREE";
-    let itree = parse_node r in
+    let irtree = if is_r then parse_rnode r else rnode0 in
+    let itree = if is_r then node_of_rnode irtree else parse_node r in
     let opsite = Printf.sprintf "op%d(%s h=%d)" opi opk h in
     (* ---- O: oracle on the implementation's outputs *)
     let root_na = if is_mcts then ga_i (if opk = "F" then a1 else a2) else na in
@@ -155,12 +210,11 @@ let judge _id (c : cursor) (r : cursor) : bool * string =
         if a >= ga_i s then oracle_fail "action_valid" (site ^ "/model-call") (Printf.sprintf "%s: the model was asked to sample action %d in state %d, which has %d actions" opsite a s (ga_i s)))
       evs;
     if is_r then begin
-      (* rPOMCP also counts visits of leaves: N >= sum of the actions' N *)
-      let rec chk (n : node) =
-        if ioN (nN n) < List.fold_left (fun acc a -> acc + ioN (aN a)) 0 (acts n) then
-          oracle_fail "tree_counts_invariant" site (opsite ^ ": a node's N is smaller than the sum of its actions' N");
-        List.iter (fun a -> List.iter (fun (_, ch) -> chk ch) (kids a)) (acts n) in
-      chk itree
+      (match rcounts_ok true irtree with
+       | Some m -> oracle_fail "tree_counts_invariant" site (opsite ^ ": " ^ m)
+       | None -> ());
+      (* every action estimate lies between the extreme knowledge measures: max-belief in [0,1] *)
+      ()
     end else
     if not (counts_okb itree) then oracle_fail "tree_counts_invariant" site (opsite ^ ": a node's N differs from the sum of its actions' N in the dumped tree");
     let steps_i = group_steps evs in
@@ -182,6 +236,8 @@ let judge _id (c : cursor) (r : cursor) : bool * string =
                 the given belief's support (call from scratch), or from a state the model actually
                 produced under (a, o) earlier in the history (advance into a simulated node) *)
              let s0 = ioN x.e.es in
+             if not (List.exists (fun (s, cn) -> ioN s = s0 && ioN cn > 0) isb) then
+               oracle_fail "particles_consistent" "rPOMCP::sampleBelief" (Printf.sprintf "%s: a simulation starts from state %d, which has no particle in the root's sampling belief [%s]" opsite s0 (str_pairs (List.map (fun (s, cn) -> (ioN s, ioN cn)) isb)));
              if opk = "F" then begin
                if s0 >= ns || q_eq (List.nth bvec s0) q_zero then oracle_fail "particles_consistent" "rPOMCP::sampleBelief" (Printf.sprintf "%s: a simulation starts from state %d, which has probability 0 in the given belief" opsite s0)
              end else begin
@@ -252,13 +308,39 @@ let judge _id (c : cursor) (r : cursor) : bool * string =
     if opk = "F" then range_valid := true;
     prev_h := h;
     if is_r then begin
-      (* no machine for rPOMCP: oracle level only *)
       (match !deferred with Some (cl, st, d) -> oracle_fail cl st d | None -> ());
-      if opk <> "F" then begin
-        let sub = (match List.nth_opt (acts !prev_itree) a1 with
-            | Some an -> List.exists (fun (k, _) -> ioN k = a2) (kids an) | None -> false) in
-        if sub then incr promoted else incr restarted
+      let sub = opk <> "F" && (match List.nth_opt (acts !prev_itree) a1 with
+          | Some an -> List.exists (fun (k, _) -> ioN k = a2) (kids an) | None -> false) in
+      if opk <> "F" then (if sub then incr promoted else incr restarted);
+      (* O: promotion keeps exactly the stored particles: the new sampling belief is the tracking
+         belief of the promoted child in the previous dump *)
+      if sub then begin
+        let prev_child = (match List.nth_opt (racts !prev_irtree) a1 with
+            | Some an -> List.find_opt (fun (k, _) -> ioN k = a2) (rkids an) | None -> None) in
+        (match prev_child with
+         | Some (_, ch) ->
+           (* zero-count entries (the max-belief phantom) carry no particle: only positive counts matter *)
+           let pos l = List.filter (fun (_, cn) -> cn > 0) l in
+           if pos (sorted_counts (rtrack ch)) <> pos (List.sort compare (List.map (fun (s, cn) -> (ioN s, ioN cn)) isb)) then
+             oracle_fail "promotion_keeps_subtree" "rPOMCP::sampleAction" (opsite ^ ": the new root's sampling belief is not the promoted node's tracking belief")
+         | None -> ())
       end;
+      (* C: replay on the rPOMCP machine *)
+      let tr = List.map (fun x -> x.e) evs in
+      let op = if opk = "F" then RFresh (isb, nat_of_int h) else RAdvance (nat_of_int a1, nat_of_int a2, nat_of_int h, isb) in
+      let (sb_m, (((g', act), tr'), steps_m)) = r_op a_n term disc (nat_of_int kk) (entropy <> 0) plogp iters_n !rtree op tr in
+      let steps_mi = List.map ioN steps_m in
+      if steps_mi <> steps_i then disagree "simulation_boundaries" site (Printf.sprintf "%s: model calls per simulation: model [%s] impl [%s]" opsite (str_ints steps_mi) (str_ints steps_i));
+      if tr' <> [] || List.fold_left (+) 0 steps_mi <> List.length evs then disagree "trace_consumed" site (opsite ^ ": the machine did not consume the log exactly");
+      let srt l = List.filter (fun (_, cn) -> cn > 0) (List.sort compare (List.map (fun (s, cn) -> (ioN s, ioN cn)) l)) in
+      if srt sb_m <> srt isb then disagree "sampling_belief" site (Printf.sprintf "%s: sampling belief model [%s] impl [%s]" opsite (str_pairs (srt sb_m)) (str_pairs (srt isb)));
+      cmp_rtree (entropy <> 0) site (Printf.sprintf "op%d:" opi) g' irtree;
+      (let vs = List.sort (fun a b -> q_cmp b a) (List.map raV (racts g')) in
+       match vs with
+       | x :: y :: _ when not (q_lt (q_of_ints 1 10000000) (q_sub x y)) -> ()
+       | _ -> if h > 0 && ioN act <> ret then disagree "findBestA" site (Printf.sprintf "%s: returned action model %d impl %d" opsite (ioN act) ret));
+      rtree := g';
+      prev_irtree := irtree;
       if tree_depth itree >= 2 then nontrivial := true;
       prev_itree := itree
     end else begin
@@ -272,6 +354,9 @@ let judge _id (c : cursor) (r : cursor) : bool * string =
       else
         let ps = bel itree in   (* makeSampledBelief's draws are inputs; only used on a (re)start *)
         let op = if opk = "F" then PFresh (ps, nat_of_int h) else PAdvance (nat_of_int a1, nat_of_int a2, nat_of_int h, ps) in
+        (* hypothesis of particles_consistent_full_pomcp, evaluated on the real log by the Coq checker *)
+        if not (pomcp_coh_op a_n term disc rl iters_n !tree op tr) then
+          disagree "log_coherent" site (opsite ^ ": the log is not coherent with the planner's state threading (pomcp_coh_op = false)");
         pomcp_op a_n term disc rl iters_n !tree op tr in
     if opk <> "F" then begin
       (* did the machine promote a subtree? (for the evidence histogram) *)
